@@ -103,7 +103,7 @@ TAGS = frozenset({
     "boolop", "cmp", "tuple", "list", "set", "dict", "fstr", "phi", "ifexp", "comp", "bv", "lambda", "loopvar",
     "carried", "loopout", "mut", "setitem", "setattr", "retphi", "not", "undef", "unknown", "modvar", "in-loop",
     # normal forms (alg.py / rules_kernel.py)
-    "poly", "op", "ifnone", "if", "qsel", "msg", "cap", "tvar", "basevar", "name",
+    "poly", "op", "ifnone", "if", "qsel", "msg", "cap", "tvar", "basevar", "name", "bar", "cat", "seq", "bottom",
 })
 _STR_SECOND = frozenset({"glob", "func", "class", "param", "modvar", "closure", "loopvar", "carried", "loopout", "unknown"})
 
@@ -437,21 +437,22 @@ class Program:
         self._index_module(m)
         return m
 
-    def expand(self, t, depth=0):
-        """Inline calls to module-level lcm / reference functions (loop-free ones)."""
+    def expand(self, t, depth=0, skip=frozenset()):
+        """Inline calls to module-level lcm / reference functions (loop-free ones).  Functions in
+        ``skip`` (those that are compared on their own) stay opaque calls."""
         if not isinstance(t, tuple):
             return t
-        t2 = tuple(self.expand(x, depth) if isinstance(x, tuple) else x for x in t)
+        t2 = tuple(self.expand(x, depth, skip) if isinstance(x, tuple) else x for x in t)
         if is_term(t2) and t2[0] == "call" and depth < 8:
             tgt = t2[1]
-            if tgt[0] == "func":
+            if tgt[0] == "func" and tgt[1] not in skip:
                 info = self.funcs.get(tgt[1])
                 if info is not None and info.parent is None and info.cls is None and not any(
                     isinstance(n, (ast.For, ast.While)) for n in ast.walk(info.node)
                 ) and not info.node.decorator_list:
                     r = self.inline(t2)
                     if r is not None and r[0] not in ("unknown",):
-                        return self.expand(r, depth + 1)
+                        return self.expand(r, depth + 1, skip)
         return t2
 
     # ---------------------------------------------------------------- lookup helpers
@@ -597,6 +598,46 @@ def specialise(t, conds):
     return tuple(specialise(x, conds) if isinstance(x, tuple) else x for x in t)
 
 
+_BOTTOM = ("bottom",)
+
+
+def mk_phi(c, a, b, tag="phi"):
+    """phi with a positive condition: phi(not x, a, b) == phi(x, b, a)."""
+    while is_term(c) and ((c[0] == "not" and len(c) == 2) or (c[0] == "unop" and c[1] == "not")):
+        c = c[1] if c[0] == "not" else c[2]
+        a, b = b, a
+    return (tag, c, a, b)
+
+
+def _build_return(rets, depth=0):
+    """Nested phi over structured early returns; paths that end in a raise are bottom, and
+    phi(c, X, bottom) == X.  None if the returns are not structured by if-chains."""
+    if any(any(c[0] == "in-loop" for c in conds) for conds, _t in rets):
+        return None
+    if len(rets) == 1:
+        return rets[0][1]
+    if not all(len(conds) > depth for conds, _t in rets):
+        # a return that is not under the condition at this depth (e.g. the final fall-through
+        # return written after `if c: return A`) carries ("not", c) in its path; anything else
+        # is outside the vocabulary
+        return None
+    c = rets[0][0][depth]
+    then = [r for r in rets if r[0][depth] == c]
+    neg = ("not", c) if c[0] != "not" else c[1]
+    els = [r for r in rets if r[0][depth] == neg]
+    if len(then) + len(els) != len(rets):
+        return None
+    a = _build_return(then, depth + 1)
+    if a is None:
+        return None
+    if not els:
+        return a
+    b = _build_return(els, depth + 1)
+    if b is None:
+        return None
+    return mk_phi(c, a, b)
+
+
 def _all_stmts(body):
     """Statements of a body including those nested in if/for/with/try blocks."""
     out = []
@@ -735,6 +776,7 @@ class _Exec:
         self.comp_scopes: list[dict] = []
         self.dead = False
         self.variant = ""
+        self.loop_stack: list[list] = []  # per open loop: [(path conds, env at a `continue`)]
 
     # ------------------------------------------------------------ set up
     def bind_params(self, fnode, bind):
@@ -761,7 +803,10 @@ class _Exec:
 
     def finish(self):
         rets = self.fr.returns
-        if not rets:
+        built = _build_return(rets) if len(rets) > 1 else None
+        if built is not None:
+            self.fr.ret = built
+        elif not rets:
             self.fr.ret = const(None)
         elif len(rets) == 1:
             self.fr.ret = rets[0][1]
@@ -771,7 +816,7 @@ class _Exec:
             and rets[1][0][: len(rets[0][0]) - 1] == rets[0][0][:-1]
             and rets[1][0][len(rets[0][0]) - 1:] in ((("not", rets[0][0][-1]),), ())
         ):
-            self.fr.ret = ("phi", rets[0][0][-1], rets[0][1], rets[1][1])
+            self.fr.ret = mk_phi(rets[0][0][-1], rets[0][1], rets[1][1])
         else:
             self.fr.ret = ("retphi", tuple((tuple(c), t) for c, t in rets))
 
@@ -906,6 +951,10 @@ class _Exec:
             return "fall", 0
         if isinstance(s, (ast.Pass, ast.Global, ast.Nonlocal)):
             return "fall", 0
+        if isinstance(s, ast.Continue) and self.loop_stack:
+            # the environment at this point is one of the ways an iteration can end
+            self.loop_stack[-1].append((tuple(self.conds), dict(self.env)))
+            return "cont", 0
         if isinstance(s, ast.Assert):
             self.fr.effects.append((tuple(self.conds), ("call", ("glob", "builtins.assert"), (self.expr(s.test),), ()), s))
             return "fall", 0
@@ -997,7 +1046,7 @@ class _Exec:
         if st1 != "fall" and st2 != "fall":
             self.env.update(base)
             self.dead = False
-            return ("ret" if "ret" in (st1, st2) else "raise"), 0
+            return ("ret" if "ret" in (st1, st2) else "cont" if "cont" in (st1, st2) else "raise"), 0
         if st1 != "fall":
             self.env.update(env2)
             self.conds.append(("not", c))
@@ -1011,7 +1060,7 @@ class _Exec:
             if k in base and a == spec_then.get(k) and b == spec_else.get(k):
                 self.env[k] = base[k]  # not touched by either branch
             else:
-                self.env[k] = a if a == b else ("phi", c, a, b)
+                self.env[k] = a if a == b else mk_phi(c, a, b)
         return "fall", 0
 
     def for_(self, s: ast.For):
@@ -1031,8 +1080,21 @@ class _Exec:
                     next={}, func=self.fr.qualname)
         self.p.loops[lid] = loop
         self.conds.append(("in-loop", lid))
+        depth0 = len(self.conds)
+        self.loop_stack.append([])
         self.block(s.body)
+        conts = self.loop_stack.pop()
         self.conds.pop()
+        # merge the environments of `continue` exits with the fall-through end of the body
+        for cconds, cenv in reversed(conts):
+            rel = [c for c in cconds[depth0:]]
+            for n in init:
+                a, b = cenv.get(n, UNDEF), self.env.get(n, UNDEF)
+                if a != b:
+                    v = a
+                    for c in reversed(rel):
+                        v = mk_phi(c, v, b)
+                    self.env[n] = v if rel else a
         for n in init:
             loop.next[n] = self.env.get(n, UNDEF)
             if loop.next[n] == ("carried", lid, n):
@@ -1154,7 +1216,7 @@ class _Exec:
         if isinstance(e, ast.FormattedValue):
             return self.expr(e.value)
         if isinstance(e, ast.IfExp):
-            return ("ifexp", self.expr(e.test), self.expr(e.body), self.expr(e.orelse))
+            return mk_phi(self.expr(e.test), self.expr(e.body), self.expr(e.orelse), "ifexp")
         if isinstance(e, (ast.ListComp, ast.SetComp, ast.GeneratorExp, ast.DictComp)):
             return self.comp(e)
         if isinstance(e, ast.Lambda):
